@@ -207,4 +207,83 @@ theorem face_edge_missing_edge (w : Nat) (en : List Pair) (faces : List (List In
     (hmiss : ∀ e ∈ en, normPair e ≠ normPair p) : makeFaceEdge w en faces = .error .key :=
   makeFaceEdge_missing w en faces f hf p hp hmiss
 
+/-! ## derived edge-face table -/
+
+/-- **edge_face_spec**: relative to *any* face-edge table `fe` (compressed rows; supplied or
+derived) whose entries are valid edge indexes and in which no edge is used more than twice
+(the manifold hypothesis, decidable), `make_edge_face_array` succeeds; row `k` has width 2,
+its unmasked entries are exactly the faces whose face-edge row contains `k` (in increasing
+face order, once per occurrence), so at most two. -/
+theorem edge_face_spec (n : Nat) (fe : List (List Int))
+    (hr : ∀ row ∈ fe, ∀ k ∈ row, 0 ≤ k ∧ k < (n : Int))
+    (hman : ∀ k : Nat, k < n → (incidences fe k).length ≤ 2) :
+    ∃ ef, makeEdgeFace n fe = .ok ef ∧ ef.length = n ∧
+      ∀ k (_ : k < n), ∃ row, ef[k]? = some row ∧ row.length = 2 ∧
+        (∀ f : Nat, (f : Int) ∈ compress row ↔ ∃ r, fe[f]? = some r ∧ (k : Int) ∈ r) ∧
+        (compress row).length ≤ 2 ∧
+        compress row = (incidences fe k).map Int.ofNat := by
+  obtain ⟨ef, hef, hlen, hspec⟩ := makeEdgeFace_spec n fe hr hman
+  refine ⟨ef, hef, hlen, ?_⟩
+  intro k hk
+  obtain ⟨row, hrow, hl, hc⟩ := hspec k hk
+  refine ⟨row, hrow, hl, ?_, ?_, hc⟩
+  · intro f
+    rw [hc, ← mem_incidences]
+    exact mem_map_ofNat
+  · rw [hc]
+    simpa using hman k hk
+
+/-- an edge used by more than two face sides is refused (IndexError), never truncated -/
+theorem edge_face_rejects_nonmanifold (n : Nat) (fe : List (List Int))
+    (hr : ∀ row ∈ fe, ∀ k ∈ row, 0 ≤ k ∧ k < (n : Int))
+    (k : Nat) (hk : k < n) (h : 2 < (incidences fe k).length) :
+    makeEdgeFace n fe = .error .index :=
+  makeEdgeFace_nonmanifold n fe hr k hk h
+
+/-- conversely, whenever `make_edge_face_array` returns a table the input was in range and
+manifold, and the table meets the specification -/
+theorem edge_face_of_ok (n : Nat) (fe : List (List Int)) (ef : Table) (h : makeEdgeFace n fe = .ok ef) :
+    (∀ k : Nat, k < n → (incidences fe k).length ≤ 2) ∧
+    ∀ k (_ : k < n) (f : Nat), (f : Int) ∈ rowOf ef k ↔ ∃ r, fe[f]? = some r ∧ (k : Int) ∈ r := by
+  obtain ⟨_, hman, _, hspec⟩ := makeEdgeFace_ok h
+  refine ⟨hman, ?_⟩
+  intro k hk f
+  obtain ⟨row, hrow, _, hc⟩ := hspec k hk
+  simp only [rowOf, hrow, hc, ← mem_incidences]
+  exact mem_map_ofNat
+
+/-! ## derived face-face table -/
+
+/-- **face_face_symm**: for *any* edge-face table (supplied or derived) on which
+`make_face_face_array` succeeds, `f` lists `g` iff `g` lists `f`. -/
+theorem face_face_symm (nf w : Nat) (ef ff : Table) (h : makeFaceFace nf w ef = .ok ff)
+    (f g : Nat) (hf : f < nf) (hg : g < nf) :
+    (g : Int) ∈ rowOf ff f ↔ (f : Int) ∈ rowOf ff g := by
+  rw [mem_rowOf_faceFace h hf, mem_rowOf_faceFace h hg]
+  exact adjEvents_symm
+
+/-- **face_face_iff_shared_edge** (table level): `f` lists `g` iff some edge's two faces are
+exactly `f` and `g`; a face never lists itself. -/
+theorem face_face_iff_shared_edge (nf w : Nat) (ef ff : Table) (h : makeFaceFace nf w ef = .ok ff)
+    (f : Nat) (hf : f < nf) (g : Int) :
+    (g ∈ rowOf ff f ↔ ∃ row ∈ ef, row = [some (f : Int), some g] ∨ row = [some g, some (f : Int)])
+    ∧ (f : Int) ∉ rowOf ff f := by
+  refine ⟨?_, ?_⟩
+  · rw [mem_rowOf_faceFace h hf, mem_adjEvents]
+  · rw [mem_rowOf_faceFace h hf]
+    intro hmem
+    exact (makeFaceFace_ok h).1 _ hmem rfl
+
+/-- every row of the face-face table has the width of the face-node table, neighbours first -/
+theorem face_face_shape (nf w : Nat) (ef ff : Table) (h : makeFaceFace nf w ef = .ok ff) :
+    ff.length = nf ∧ ∀ row ∈ ff, row.length = w := by
+  obtain ⟨_, hlen, hspec⟩ := makeFaceFace_ok h
+  refine ⟨hlen, ?_⟩
+  intro row hrow
+  obtain ⟨i, hi, rfl⟩ := List.getElem_of_mem hrow
+  obtain ⟨row', hrow', hl, _⟩ := hspec i (by omega)
+  rw [List.getElem?_eq_getElem hi] at hrow'
+  rw [Option.some.inj hrow']
+  exact hl
+
 end Ems.C10
